@@ -77,9 +77,9 @@ CLAIMED = {
    note="A-NP-SPEC argmax / nanargmax / max; The weak-positive swap (pandas row surgery), scale equivariance end to end (incl. exact power-of-two scaling), batch independence and slopes: bounded stand-in on generated bi/tri-phasic spikes. Known finding F-C14-2.",
    tech="AST->z3 VC generation with order-statistics specification axioms (deductive) + bounded native stand-in"),
  "C18": dict(cat="other", ref="DESIGN.md 4/C18",
-   text="fourier.convolve: inverse transform asked for the padded length, 'same' = centred crop for both parities, 'full' length; ns_optim_fft exhaustive over its table; freduce/fexpand mutually inverse on Hermitian spectra for both parities and any axis; "
+   text="fourier.convolve: inverse transform asked for the padded length, 'same' = centred crop for both parities, 'full' length; ns_optim_fft: look-up proved over an abstract strictly increasing table, the table's entries and completeness enumerated; freduce/fexpand mutually inverse on Hermitian spectra for both parities and any axis; "
         "fscale == DFT bin frequencies; lp + hp == 1, bp == hp*lp on the filter vectors; cosine taper monotone in [0,1]; filter broadcast along the requested axis.",
-   note="A-FFT (shapes, linearity; contents opaque), A-MATH (three facts about cos). Equality with direct convolution / FFT on the impulse basis is a bounded stand-in. Known finding F-C18-1 (ns_optim above its table); F-C18-3 (3-D, axis 0) was repaired.",
+   note="A-FFT (shapes, linearity; contents opaque), A-MATH (three facts about cos). Equality with direct convolution / FFT on the impulse basis is a bounded stand-in. F-C18-1 (ns_optim_fft above its table) and F-C18-3 (3-D, axis 0) were repaired.",
    tech="AST->z3 VC generation with FFT shape/Hermitian specification axioms (deductive) + bounded impulse-basis stand-in"),
  "C05": dict(cat="other", ref="DESIGN.md 4/C05",
    text="car: exactly one channel-axis reduction with the requested operator is subtracted, per-collection == per-group; kfilt/fk recursion over collections forwards every setting; kfilt body: gain control only when a window is given, mirrored padding, padding rows dropped and gain multiplied back; destripe data-flow: high-pass -> fshift by +sample_shift along time -> interpolation -> "
